@@ -593,6 +593,7 @@ class CifEngine(Engine):
                 text = json.dumps(scn["ops"])
                 saves = [o for o in scn["ops"] if o["op"] == "save"]
                 if (len(saves) >= 2 and "with_authors" in kinds and "with_powder" in kinds and '"role": "' in text
+                        and _lineage_has_roles(scn["ops"], saves[-1]["cif"])
                         and "\\n;" not in text and '"name": ""' not in text and not any(
                             o["op"] in ("loop_set_bad", "block_bad_name", "cif_bad_name", "with_powder_bad") for o in scn["ops"])):
                     break
@@ -1613,6 +1614,19 @@ class CifEngine(Engine):
                     c = copy.deepcopy(s)
                     _set_path(c["ops"][k], path, repl)
                     yield c
+
+
+def _lineage_has_roles(ops, cif_id) -> bool:
+    """Does the builder saved under ``cif_id`` descend from a with_authors call with a role?"""
+    by_id = {o["id"]: o for o in ops if "id" in o}
+    seen = set()
+    while cif_id in by_id and cif_id not in seen:
+        seen.add(cif_id)
+        o = by_id[cif_id]
+        if o["op"] == "with_authors" and any(a.get("role") for a in o["authors"]):
+            return True
+        cif_id = o.get("src")
+    return False
 
 
 def _neutralise_semicolon_lines(scn: dict) -> dict:
